@@ -70,7 +70,7 @@ func cmdFunc(args []string) {
 	}
 	var execs []*Exec
 	for _, k := range sortedFuncKeys(v.contracts.Funcs) {
-		if strings.Contains(k, *match) {
+		if strings.Contains(k, *match) && !strings.HasPrefix(k, "iface:") {
 			execs = append(execs, v.verifyFunc(v.contracts.Funcs[k])...)
 		}
 	}
@@ -131,7 +131,6 @@ func cmdFunc(args []string) {
 		}
 	}
 }
-
 
 // candidateModel re-runs an undecided query without its quantified assertions; a model of that
 // weaker query is only a hint for debugging contracts.
